@@ -174,6 +174,23 @@ func genScenario(r *vh.Rand, kind int) scen {
 			{From: "owner", SC: "vesting", Fn: "vestingsc-update-settings", Input: fieldsJSON([][2]string{{"min_duration", "3m"}, {"max_duration", "3000h"}, {"cost.add", "7"},
 				{"max_destinations", "4"}, {"max_description_length", "30"}})}}})
 	}
+	if kind == 5 || (len(s.Triggers) == 0 && r.Chance(1, 4)) {
+		// a governance call that writes a cost.* entry and then fails on a later entry (the loops visit the keys in
+		// sorted order, "cost." sorts first), followed - in later blocks - by calls that save the same settings node:
+		// whatever the failed call left in a cached object must not reach the trie (warm vs cold root)
+		costs := []string{"add_miner", "add_sharder", "wait", "contributeMpk", "update_settings", "sharder_keep"}
+		bads := [][2]string{{"max_n", "not-a-number"}, {"nope", "1"}, {"epoch", "1.5"}, {"max_charge", "lots"}}
+		es := [][2]string{{"cost." + costs[r.Intn(len(costs))], fmt.Sprint(r.Range(200, 999))}}
+		if r.Bool() {
+			es = append(es, [2]string{"max_delegates", "120"})
+		}
+		es = append(es, bads[r.Intn(len(bads))])
+		s.Blocks = append(s.Blocks, sblock{Txns: []stxn{{From: "owner", SC: "miner", Fn: "update_settings", Input: fieldsJSON(es)}}})
+		s.Blocks = append(s.Blocks, sblock{Txns: []stxn{{From: "owner", SC: "miner", Fn: "update_settings", Input: fieldsJSON([][2]string{{"reward_round_frequency", fmt.Sprint(r.Range(50, 500))}})}}})
+		if r.Bool() {
+			s.Blocks = append(s.Blocks, sblock{Txns: []stxn{{From: "owner", SC: "miner", Fn: "update_settings", Input: fieldsJSON([][2]string{{"cost.wait", fmt.Sprint(r.Range(100, 200))}})}}})
+		}
+	}
 	if kind == 4 || r.Chance(1, 3) {
 		// zcnsc mints: a call that fails after writing (bad signatures: the nonce is recorded first), then - in a later
 		// block - a call that reads the same key (a correctly signed mint with that nonce); plus regular mints and repeats
@@ -403,7 +420,11 @@ func compare(s scen, rs []result, errs []string) ([]viol, int64) {
 				} else if hasTrig(s, "clock") {
 					add("wall-clock-lock-period", "state root after block %d differs between an execution and one started %v later", b, s.Late)
 				} else {
-					add("state-root-differs", "state root / change count after block %d differs: %s.. (%d) vs %s.. (%d)", b, r0.Roots[b][:12], r0.Changes[b], r.Roots[b][:12], r.Changes[b])
+					sig := "state-root-differs"
+					if i%4 >= 2 { // execution 0 is warm, execution i is cold (mkCfgs)
+						sig = "root-depends-on-cache-temperature"
+					}
+					add(sig, "state root / change count after block %d differs (warm: one StateCache across the blocks, cold: a fresh one per block; execution 0 is warm): %s.. (%d) vs %s.. (%d)", b, r0.Roots[b][:12], r0.Changes[b], r.Roots[b][:12], r.Changes[b])
 				}
 				break
 			}
@@ -794,6 +815,8 @@ func main() {
 			kind = 3
 		case i%8 == 2 || i%8 == 6:
 			kind = 4
+		case i%8 == 4:
+			kind = 5
 		}
 		s := genScenario(rnd, kind)
 		s.Name = fmt.Sprintf("s%d-kind%d", i, kind)
